@@ -69,6 +69,33 @@ Entries ==
   \cup {[name |-> nm, kinds |-> <<"time">>] : nm \in {"ts.decapitate", "ts.split_edges", "tables.delete_older", "tree.num_lineages"}}
   \cup {[name |-> nm, kinds |-> <<"small_int">>] : nm \in {"tables.nodes.truncate", "tables.edges.truncate", "ts.write_vcf_ploidy", "tree.root_threshold",
        "tables.sort_edge_start", "ts.divmat_threads"}}
+\* ---- automatically discovered entries ------------------------------------------------------
+\* Every public method of TreeSequence / Tree / TableCollection / the table classes / Variant / LdCalculator is an
+\* entry point; its parameters are typed by name (u, node, id_, site, ... : an identifier; nodes, samples, focal, ... :
+\* identifier lists; sample_sets, between: lists of lists; indexes: tuples of sample-set indexes; keep / masks and
+\* arrays: lengths; ...).  The harness introspects the signatures and passes (name, kind) pairs; for these entries
+\* the rule is only "returns or raises; no memory error, abort or hang; later legal calls unaffected" -- whether an
+\* out-of-range value must be *rejected* is stated (MustRaise) only for the curated catalogue above, because a
+\* parameter that merely filters (samples(population=99)) may legitimately accept any value.
+DimNames == {"nodes", "edges", "sites", "mutations", "individuals", "populations", "migrations", "provenances", "trees", "samples"}
+AllN(dims) == {dims[d] : d \in DimNames}
+GenericIds(dims) == UNION {IdVals(n) : n \in AllN(dims)}
+GenericLists(dims) == {<<>>} \cup UNION {{<<0>>, <<n - 1>>, <<n>>, <<-1>>, <<-2>>, <<HUGE>>, <<0, 0>>, <<0, n>>, <<n + 1, 0>>, <<n - 1, 0>>} : n \in AllN(dims)}
+Lengths(dims) == {v \in {0, 1} \cup UNION {{n - 1, n, n + 1} : n \in AllN(dims)} : v >= 0}
+IndexTuples == {<<>>, <<0>>, <<0, 0>>, <<0, 1>>, <<-1, 0>>, <<2, 0>>, <<HUGE, 0>>, <<0, 1, 0>>, <<0, 1, 2>>, <<0, 0, 1, 1>>, <<0, 1, 2, HUGE>>, <<0, 1, 0, -2>>}
+AutoVals(kind, dims) ==
+  CASE kind = "id" -> GenericIds(dims)
+    [] kind \in {"id_list", "id_list_list", "site_lists"} -> GenericLists(dims)
+    [] kind = "index_tuples" -> IndexTuples
+    [] kind = "length" -> Lengths(dims)
+    [] kind = "small" -> {-1, 0, 1, 2, 65}
+    [] OTHER -> Vals(kind, dims)
+AutoPrograms(dims, auto) == UNION {{[name |-> auto[i][1], kinds |-> <<auto[i][2]>>, args |-> <<v>>, must_raise |-> 0] : v \in AutoVals(auto[i][2], dims)} : i \in 1..Len(auto)}
+\* column-level entry points (set_columns / append_columns): one column of a consistent set is damaged
+ColumnFaults == {"truncate", "extend", "empty", "offset_nonmonotone", "offset_last_short", "offset_last_long", "offset_first_nonzero", "offset_negative", "offset_huge", "wrong_dtype_float"}
+ColumnPrograms == {[name |-> "columns", kinds |-> <<"table", "column", "fault", "method">>, args |-> <<t, c, f, m>>, must_raise |-> 0] :
+                     t \in {"nodes", "edges", "sites", "mutations", "individuals", "populations", "migrations", "provenances"}, c \in 0..11, f \in ColumnFaults,
+                     m \in {"set_columns", "append_columns"}}
 Programs(dims) == UNION {{[name |-> e.name, kinds |-> e.kinds, args |-> a, must_raise |-> IF MustRaise(e.name, e.kinds, a, dims) THEN 1 ELSE 0] :
                             a \in ArgTuples(e.kinds, dims)} : e \in Entries}
 =============================================================================
